@@ -17,6 +17,7 @@ class Run:
     def __init__(self, cfg):
         self.cfg = cfg
         self.Q = cfg.get("Q", 4)
+        self.t0 = cfg.get("t0", 0)          # ticks: the environment's initial_time; recorded times are relative to it
         self.ev = []
         self.items = []          # strong refs, gid = index+1
         self.item_gid = {}
@@ -31,7 +32,7 @@ class Run:
 
     def tick(self, t=None):
         t = self.env.now if t is None else t
-        x = t * self.Q
+        x = t * self.Q - self.t0
         r = int(round(x))
         if abs(x - r) > 1e-9:
             self.offgrid = True
@@ -274,7 +275,7 @@ def build(cfg, run):
     from factorysimpy.helper.item import Item
     from factorysimpy.helper.pallet import Pallet
     Q = run.Q
-    env = TracedEnvironment()
+    env = TracedEnvironment(initial_time=run.t0 / float(Q))
     run.env = env
 
     def reg_item(it):
@@ -474,7 +475,7 @@ def snapshot(run, kind="eoi"):
 
 def finalise(run, T):
     Q = run.Q
-    Tt = T / float(Q)
+    Tt = (T + run.t0) / float(Q)
     out = {"nodes": [], "edges": []}
     for i, n in enumerate(run.nodes):
         rec = {"err": ""}
@@ -507,9 +508,9 @@ def finalise(run, T):
         out["edges"].append(rec)
     items = []
     for it in run.items:
-        items.append({"cr": -1 if it.timestamp_creation is None else it.timestamp_creation * Q,
-                      "en": -1 if it.timestamp_node_entry is None else it.timestamp_node_entry * Q,
-                      "ex": -1 if it.timestamp_node_exit is None else it.timestamp_node_exit * Q})
+        items.append({"cr": -1 if it.timestamp_creation is None else it.timestamp_creation * Q - run.t0,
+                      "en": -1 if it.timestamp_node_entry is None else it.timestamp_node_entry * Q - run.t0,
+                      "ex": -1 if it.timestamp_node_exit is None else it.timestamp_node_exit * Q - run.t0})
     out["items"] = items
     run.log(k="final", t=T, **out)
 
@@ -523,7 +524,7 @@ def report_mid(run, Tm):
         try:
             for name in ("update_final_buffer_avg_content", "update_final_fleet_avg_content", "update_final_conveyor_avg_content"):
                 if hasattr(e, name):
-                    getattr(e, name)(Tm / float(Q))
+                    getattr(e, name)((Tm + run.t0) / float(Q))
             for k, v in e.stats.items():
                 if k.startswith("time_averaged"):
                     rec["avg"] = v
@@ -550,7 +551,7 @@ def run_config(cfg, max_events_per_instant=5000):
             except BaseException as ex:       # noqa  construction rejected the configuration
                 _RUN = None
                 return {"cfg": cfg, "ev": run.ev, "outcome": "rejected_at_build", "err": "%s: %s" % (type(ex).__name__, ex)}
-            Tt = T / float(Q)
+            Tt = (T + run.t0) / float(Q)
             last_t = None
             # an interim report of the edges' time-averaged occupancy half way (periodic reporting: the figures must be
             # exact then, and exact again at the end)
